@@ -110,6 +110,7 @@ fn run_sub(
                 header: pbool(p, "header"),
                 delim: pstr(p, "delim"),
                 stdin: false,
+                order: 0,
             };
             let (r, ro) = run_oligo(in_dir, stem, records, container, &cfg, sched, io, abort_at, steps, &loc.join("result"));
             out.absorb(&r, main);
